@@ -30,6 +30,9 @@ type instSpec struct {
 	Codec string `json:"codec"`
 	Poff  int    `json:"poff"`
 	Ops   []op   `json:"ops"`
+	// FailAt > 0: a writer whose destination fails from its FailAt-th Write call on (error paths of one instance must not
+	// leave shared state behind that changes what other instances write)
+	FailAt int `json:"failat,omitempty"`
 }
 
 type schedSpec struct {
@@ -77,7 +80,8 @@ func runInst(is instSpec, file []byte, inst int, g *gate) (res instResult) {
 		}
 		return
 	}
-	snk := &callSink{inst: inst, g: g}
+	snk := &callSink{inst: inst, g: g, failAt: is.FailAt}
+	defer func() { res.calls = snk.calls }()
 	w, err := NewParquetWriter(snk, MaxPageSize(is.Page), codecOpt[is.Codec])
 	if err != nil {
 		res.err = err.Error()
@@ -108,14 +112,20 @@ func runInst(is instSpec, file []byte, inst int, g *gate) (res instResult) {
 // callSink records every Write call separately; the copy is taken only after
 // the gate has released the call.
 type callSink struct {
-	calls [][]byte
-	inst  int
-	g     *gate
+	calls  [][]byte
+	inst   int
+	g      *gate
+	failAt int
+	n      int
 }
 
 func (s *callSink) Write(p []byte) (int, error) {
 	if s.g != nil {
 		s.g.wait(s.inst)
+	}
+	s.n++
+	if s.failAt > 0 && s.n >= s.failAt {
+		return 0, errInjected
 	}
 	s.calls = append(s.calls, append([]byte{}, p...))
 	return len(p), nil
